@@ -35,7 +35,11 @@ def job_matrix(job):
             out['failures'].append(rec)
     for cfg in job['configs']:
         seen = {}
-        alg = make_algebra(cfg)
+        try:
+            alg = make_algebra(cfg)
+        except Exception as _e:
+            out['failures'].append({'config': cfg, 'what': 'constructing an admissible algebra raised', 'error': type(_e).__name__ + ': ' + str(_e)[:150]})
+            continue
         out['configs'] += 1
         N = 2 ** alg.d
         canon = list(alg.canon2bin.values())
@@ -177,7 +181,11 @@ def job_series(job):
                 return False
         return True
     for cfg in job['configs']:
-        alg = make_algebra(cfg)
+        try:
+            alg = make_algebra(cfg)
+        except Exception as _e:
+            out['failures'].append({'config': cfg, 'what': 'constructing an admissible algebra raised', 'error': type(_e).__name__ + ': ' + str(_e)[:150]})
+            continue
         fr = O.Frame(alg)
         out['configs'] += 1
         d = alg.d
@@ -313,7 +321,11 @@ def job_graph(job):
         if seen[cat] <= 2:
             out['failures'].append(rec)
     for cfg in job['configs']:
-        alg = make_algebra(cfg)
+        try:
+            alg = make_algebra(cfg)
+        except Exception as _e:
+            out['failures'].append({'config': cfg, 'what': 'constructing an admissible algebra raised', 'error': type(_e).__name__ + ': ' + str(_e)[:150]})
+            continue
         out['configs'] += 1
         N = 2 ** alg.d
         canon = list(alg.canon2bin.values())
